@@ -572,6 +572,56 @@ class ClSigBed(LeSigBed):
     def is_valid_disconnect(self, chan, data):
         return False  # the probe does not need the dynamic channel
 
+    # -- channel 'cfgopt': a peer that opens a channel and first asks for a configuration option the victim does not
+    # implement (data = the raw option), then - told so - asks again with the MTU option alone.  The attacker answers the
+    # victim's own Configure Request the way any peer does.  The corrected request must be answered with success.
+    def send(self, chan, data):
+        if chan != 'cfgopt':
+            return super().send(chan, data)
+        self.raw_scid = getattr(self, 'raw_scid', 0x0054) + 1
+        ident = 0x20 + (self.next_tid() % 0x40) * 3
+        self.cfg = {'scid': self.raw_scid, 'opt': bytes(data), 'id': ident, 'vcid': None, 'first': None, 'result': None}
+        super().send('sig', bytes([0x02, ident, 4, 0]) + struct.pack('<HH', 1, self.raw_scid))
+
+    def on_capture(self, cid, pdu):
+        c = getattr(self, 'cfg', None)
+        if c is None or cid != 1 or len(pdu) < 4:
+            return
+        code, ident, body = pdu[0], pdu[1], pdu[4:]
+        if code == 0x03 and ident == c['id'] and len(body) >= 8 and c['vcid'] is None:
+            dcid, scid, result, _ = struct.unpack('<HHHH', body[:8])
+            if scid == c['scid'] and result == 0:
+                c['vcid'] = dcid
+                o = c['opt']
+                super().send('sig', bytes([0x04, ident + 1, 4 + len(o), 0]) + struct.pack('<HH', dcid, 0) + o)
+        elif code == 0x04 and len(body) >= 4 and struct.unpack('<H', body[:2])[0] == c['scid'] and c['vcid'] is not None:
+            super().send('sig', bytes([0x05, ident, 6, 0]) + struct.pack('<HHH', c['vcid'], 0, 0))
+        elif code == 0x05 and ident == c['id'] + 1 and len(body) >= 6 and c['first'] is None:
+            c['first'] = struct.unpack('<H', body[4:6])[0]
+            if c['first'] != 0:
+                super().send('sig', bytes([0x04, c['id'] + 2, 8, 0]) + struct.pack('<HH', c['vcid'], 0) + bytes([0x01, 0x02, 0xA0, 0x02]))
+        elif code == 0x05 and ident == c['id'] + 2 and len(body) >= 6:
+            c['result'] = struct.unpack('<H', body[4:6])[0]
+
+    def probe(self):
+        c, self.cfg = getattr(self, 'cfg', None), None
+        if c is not None:
+            r = None
+            if c['vcid'] is None:
+                r = 'connection_request_not_accepted'
+            elif c['first'] is None:
+                r = 'configure_request_not_answered'
+            elif c['first'] != 0 and c['result'] is None:
+                r = 'corrected_configure_request_not_answered'
+            elif c['first'] != 0 and c['result'] != 0:
+                r = f'corrected_configure_request_refused_{c["result"]}'
+            if c['vcid'] is not None:  # release the channel again
+                super().send('sig', bytes([0x06, 0x7E, 4, 0]) + struct.pack('<HH', c['vcid'], c['scid']))
+                self.psettle()
+            if r:
+                return r
+        return super().probe()
+
 
 class LeCocBed(Bed):
     """Victim = LE credit-based channel server whose application echoes every SDU; attacker = raw
